@@ -42,7 +42,9 @@ func (s *sess) rawEcho(stop *int32) {
 		case *message.Startup:
 			err = p.write(frame.NewFrame(v, id, &message.Ready{}))
 		case *message.Query:
-			if strings.HasPrefix(m.Query, "paged") {
+			if strings.HasPrefix(m.Query, "noreply") {
+				// stays pending
+			} else if strings.HasPrefix(m.Query, "paged") {
 				for pg := 1; pg <= 3 && err == nil; pg++ {
 					err = p.write(frame.NewFrame(v, id, pageMsg(pg, pg == 3)))
 				}
@@ -84,7 +86,7 @@ func runConc(sp *caseSpec, res *caseResult) {
 	default:
 		theTap.setJitter(sp.PSeed, 0) // record the order signature only
 	}
-	var completed, sent, sendErrs int64
+	var completed, sent, sendErrs, dupRefused, dupAccepted int64
 	cc := s.cc
 	// senders
 	for g := 0; g < sp.Senders; g++ {
@@ -92,6 +94,18 @@ func runConc(sp *caseSpec, res *caseResult) {
 		rnd := mon.NewRand(int64(sp.PSeed), uint64(g))
 		s.recvs = append(s.recvs, watch(fmt.Sprintf("sender-%d", g), func() error {
 			n := 0
+			// one request per sender stays pending on a caller-chosen stream id for the whole session; a second
+			// Send with the same id is refused. Whatever ends the connection must complete the first one.
+			ownID := int16(2000 + g)
+			if req, err := cc.Send(frame.NewFrame(s.ver, ownID, &message.Query{Query: "noreply"})); err == nil {
+				s.addReq(newTrack(fmt.Sprintf("s%d-pending-on-id-%d", g, ownID), false, req))
+				if req2, err2 := cc.Send(frame.NewFrame(s.ver, ownID, &message.Query{Query: "noreply"})); err2 != nil {
+					atomic.AddInt64(&dupRefused, 1)
+				} else {
+					atomic.AddInt64(&dupAccepted, 1)
+					s.addReq(newTrack(fmt.Sprintf("s%d-second-on-id-%d", g, ownID), false, req2))
+				}
+			}
 			for atomic.LoadInt32(&stop) == 0 {
 				var batch []*reqTrack
 				for d := 0; d < sp.Depth; d++ {
@@ -193,6 +207,8 @@ func runConc(sp *caseSpec, res *caseResult) {
 	res.count("conc_requests_sent", atomic.LoadInt64(&sent))
 	res.count("conc_requests_completed", atomic.LoadInt64(&completed))
 	res.count("conc_events_received", atomic.LoadInt64(&s.evCount))
+	res.count("duplicate_id_send_refused", atomic.LoadInt64(&dupRefused))
+	res.count("duplicate_id_send_accepted", atomic.LoadInt64(&dupAccepted))
 	res.max("max_completed_before_fault", atFault)
 	if atFault > 0 {
 		res.count("conc_cases_fault_under_load", 1)
